@@ -400,9 +400,15 @@ public:
     } else if (!m_variable && !other.m_variable) {
       return (m_partitions[0].get_dom() <= other.m_partitions[0].get_dom());
     } else if (!(m_variable == other.m_variable)) {
+      // The partitions of the right operand cannot be merged: their join
+      // describes more than other does, so the test would not be sound.
       partition_t smashed_this = merge_partitions();
-      partition_t smashed_other = other.merge_partitions();
-      return smashed_this.get_dom() <= smashed_other.get_dom();
+      for (auto const &other_partition : other.m_partitions) {
+        if (smashed_this.get_dom() <= other_partition.get_dom()) {
+          return true;
+        }
+      }
+      return false;
     } else {
       for (auto this_it = m_partitions.begin(), this_et = m_partitions.end(),
                 other_it = other.m_partitions.begin(),
@@ -424,19 +430,11 @@ public:
           }
           ++this_it;
         } else {
-          // The partition on the left overlaps one or more partitions on the
-          // right
-          NumDomain other_dom = other_it->get_dom();
-          for (auto it = ++other_it;
-               it != other_et &&
-               this_it->get_interval().ub() >= it->get_interval().lb();
-               ++it) {
-            other_dom |= it->get_dom();
-          }
-          if (!(this_it->get_dom() <= other_dom)) {
-            return false;
-          }
-          ++this_it;
+          // The partition on the left goes beyond the partition on the
+          // right. Joining the partitions on the right that it overlaps
+          // would over-approximate other (e.g. x in [1,3] is not included
+          // in x <= 1 or x >= 3), so inclusion cannot be established.
+          return false;
         }
       }
       return true;
